@@ -892,7 +892,11 @@ func (c *MapConverter) To(obj Object) (interface{}, error) {
 		if err != nil {
 			return nil, err
 		}
-		gMap.SetMapIndex(reflect.ValueOf(k), assignableValue(reflect.ValueOf(conv), c.valueType))
+		value, err := assignableValue(reflect.ValueOf(conv), c.valueType)
+		if err != nil {
+			return nil, err
+		}
+		gMap.SetMapIndex(reflect.ValueOf(k), value)
 	}
 	return gMap.Interface(), nil
 }
@@ -969,7 +973,11 @@ func (c *StructConverter) To(obj Object) (interface{}, error) {
 						if err != nil {
 							return nil, err
 						}
-						f.Set(assignableValue(reflect.ValueOf(attrValue), f.Type()))
+						fieldValue, err := assignableValue(reflect.ValueOf(attrValue), f.Type())
+						if err != nil {
+							return nil, err
+						}
+						f.Set(fieldValue)
 					}
 				}
 			}
@@ -1015,21 +1023,33 @@ func newStructConverter(typ reflect.Type) (*StructConverter, error) {
 // element). Converters produce values of basic unnamed types, so when t is a
 // named type of the same kind (e.g. time.Duration for an int64) the value is
 // converted; a nil value becomes the zero value of t.
-func assignableValue(v reflect.Value, t reflect.Type) reflect.Value {
+//
+// What cannot be assigned even then is an error: reflect would panic on it (a
+// proxy of another struct type, a string for a non-empty interface, a nil
+// pointer for a struct value).
+func assignableValue(v reflect.Value, t reflect.Type) (reflect.Value, error) {
 	if !v.IsValid() {
-		return reflect.Zero(t)
+		return reflect.Zero(t), nil
 	}
 	vt := v.Type()
-	if !vt.AssignableTo(t) && vt.Kind() == t.Kind() && vt.ConvertibleTo(t) {
-		return v.Convert(t)
+	if vt.AssignableTo(t) {
+		return v, nil
+	}
+	if vt.Kind() == t.Kind() && vt.ConvertibleTo(t) {
+		switch t.Kind() {
+		case reflect.Ptr, reflect.Struct, reflect.Interface:
+			// converting between such types is not a matter of naming
+		default:
+			return v.Convert(t), nil
+		}
 	}
 	// Struct converters hand out pointers (so that a proxy can change the
 	// struct in place); a location that holds the struct itself gets a copy
 	// of what the pointer points to
-	if !vt.AssignableTo(t) && vt.Kind() == reflect.Ptr && !v.IsNil() && vt.Elem().AssignableTo(t) {
-		return v.Elem()
+	if vt.Kind() == reflect.Ptr && !v.IsNil() && vt.Elem().AssignableTo(t) {
+		return v.Elem(), nil
 	}
-	return v
+	return reflect.Value{}, errz.TypeErrorf("type error: a value of type %s cannot be used as %s", vt, t)
 }
 
 // PointerConverter converts between *T and the Risor equivalent of T.
@@ -1091,7 +1111,11 @@ func (c *SliceConverter) To(obj Object) (interface{}, error) {
 		if err != nil {
 			return nil, errz.TypeErrorf("type error: failed to convert slice element: %v", err)
 		}
-		slice = reflect.Append(slice, assignableValue(reflect.ValueOf(item), c.valueType))
+		elem, err := assignableValue(reflect.ValueOf(item), c.valueType)
+		if err != nil {
+			return nil, errz.TypeErrorf("type error: failed to convert slice element: %v", err)
+		}
+		slice = reflect.Append(slice, elem)
 	}
 	return slice.Interface(), nil
 }
@@ -1159,7 +1183,11 @@ func (c *ArrayConverter) To(obj Object) (interface{}, error) {
 		if err != nil {
 			return nil, errz.TypeErrorf("type error: failed to convert element: %v", err)
 		}
-		arrayElem.Index(i).Set(assignableValue(reflect.ValueOf(item), c.valueType))
+		elem, err := assignableValue(reflect.ValueOf(item), c.valueType)
+		if err != nil {
+			return nil, errz.TypeErrorf("type error: failed to convert element: %v", err)
+		}
+		arrayElem.Index(i).Set(elem)
 	}
 	return arrayElem.Interface(), nil
 }
